@@ -255,7 +255,15 @@ def economy(plan, cc, currency=None, gov='cons', hh='hh', caps=False, firm='fm0'
             plan.params += [(k('CAP'), 'L0'), (k('CAP'), 'L1'), (k('CAP'), 'L2')]
     # exogenous government demand (named through the goods code so renaming keeps the wiring)
     if govkey is not None:
-        plan.post(lambda c: c[govkey].SetExogenous('DEM_GOOD', exo()))
+        def gov_demand_post(c):
+            # the government classes expose no goods-name parameter: a government buying from a renamed goods market
+            # declares its demand variable itself (same call sequence in every build)
+            g = c[govkey]
+            name = 'DEM_' + c.nm('GOOD')
+            if name not in g.EquationBlock:
+                g.AddVariable(name, 'Government consumption of goods', '0.0')
+            g.SetExogenous(name, exo())
+        plan.post(gov_demand_post)
     if gov in ('gold_gov', 'tre_goldcb'):
         plan.features.add('gold')
     if free_xr and currency is not None:
